@@ -43,9 +43,11 @@ import (
 	"fmt"
 	"os"
 	"runtime"
+	"runtime/pprof"
 	"sort"
 	"strings"
 	"sync"
+	"sync/atomic"
 	"time"
 
 	"github.com/safing/portbase/api"
@@ -157,6 +159,12 @@ type backend struct {
 	readback bool // the marks of a record are what the privileged read-back shows (config)
 	prov     *memProvider
 	push     pbruntime.PushFunc
+	// serial is held for the whole cell on the hashmap backends: their Put is called with
+	// the record locked and then takes the map lock, while their query executor holds the
+	// map lock and locks every record in turn, so two cells working on one hashmap
+	// database at the same time can block each other for ever (a scheduling matter that is
+	// not this property's subject).
+	serial sync.Mutex
 }
 
 func (b *backend) id() string { return fmt.Sprintf("%s/%v", b.kind, b.shadow) }
@@ -532,6 +540,10 @@ func runCell(cell Cell, idx int64) (res result) {
 		res.engineErr = "unknown backend " + cell.Backend
 		return res
 	}
+	if b.kind == "hashmap" {
+		b.serial.Lock()
+		defer b.serial.Unlock()
+	}
 	dir := fmt.Sprintf("r/c%d/", idx)
 	if cell.Depth == 2 {
 		dir += "d/"
@@ -843,6 +855,7 @@ func runCell(cell Cell, idx int64) (res result) {
 
 	access := func(path string) {
 		curPath = path
+		n0 := len(res.leaks) // what the reader saw in this access comes after n0
 		switch path {
 		case "Get":
 			r, err := reader.Get(fullT)
@@ -859,19 +872,19 @@ func runCell(cell Cell, idx int64) (res result) {
 			res.outcome = fmt.Sprintf("exists-%v-%s", ok, errClass(err))
 		case "Query-prefix":
 			drainQuery(q, "Query(dir)")
-			res.success = len(res.leaks) > 0
+			res.success = len(res.leaks) > n0
 		case "Query-key":
 			drainQuery(query.New(fullT), "Query(key of t)")
-			res.success = len(res.leaks) > 0
+			res.success = len(res.leaks) > n0
 		case "Query-cond":
 			drainQuery(query.New(b.db+":"+dir).Where(query.Where("Value", query.SameAs, "v2")), "Query(dir where Value sameas v2)")
-			res.success = len(res.leaks) > 0
+			res.success = len(res.leaks) > n0
 		case "Subscribe-writes":
 			res.checkMod = false
 			postWrites()
 			drainFeed(res.denied)
 			_ = sub.Cancel()
-			res.success = len(res.leaks) > 0 || res.fedWhileAllowed > 0
+			res.success = len(res.leaks) > n0 || res.fedWhileAllowed > 0
 			res.outcome = "feed-drained"
 		case "Subscribe-push":
 			res.checkMod = false
@@ -884,7 +897,7 @@ func runCell(cell Cell, idx int64) (res result) {
 			pushBoth()
 			drainFeed(res.denied)
 			_ = sub.Cancel()
-			res.success = len(res.leaks) > 0 || res.fedWhileAllowed > 0
+			res.success = len(res.leaks) > n0 || res.fedWhileAllowed > 0
 			res.outcome = "feed-drained"
 		case "InsertValue":
 			err := step("reader.InsertValue(t,Value=vR)", reader.InsertValue(fullT, "Value", "vR"))
@@ -954,7 +967,7 @@ func runCell(cell Cell, idx int64) (res result) {
 				break
 			}
 			apiFeedJudge(msgs)
-			res.success = len(res.leaks) > 0
+			res.success = len(res.leaks) > n0
 			res.outcome = "api-query-" + m.typ
 			res.trace = append(res.trace, fmt.Sprintf("api 1|query|query dir -> %d replies, %s", len(msgs), m.typ))
 		case "api:sub":
@@ -965,9 +978,8 @@ func runCell(cell Cell, idx int64) (res result) {
 				break
 			}
 			apiFeed = append(append([]apiMsg{}, conn.stash...), apiFeed...)
-			nBefore := len(res.leaks)
 			apiFeedJudge(apiFeed)
-			res.success = len(res.leaks) > nBefore
+			res.success = len(res.leaks) > n0
 			res.outcome = "api-feed-done"
 			res.trace = append(res.trace, fmt.Sprintf("api 2|cancel -> %d replies, done", len(apiFeed)))
 		case "api:qsub":
@@ -989,9 +1001,8 @@ func runCell(cell Cell, idx int64) (res result) {
 				res.engineErr = fmt.Sprintf("%s: %v", cell, err)
 				break
 			}
-			nBefore := len(res.leaks)
 			apiFeedJudge(apiFeed)
-			res.success = len(res.leaks) > nBefore
+			res.success = len(res.leaks) > n0
 			res.outcome = "api-feed-done"
 			res.trace = append(res.trace, fmt.Sprintf("api 2|qsub|query dir ... 2|cancel -> %d replies, done", len(apiFeed)))
 		case "api:create":
@@ -1074,47 +1085,59 @@ type witness struct {
 	After  string   `json:"after,omitempty"`
 }
 
-func judge(c *vlib.Ctx, r result) (violated bool) {
+// vio is one violated oracle clause of a cell.
+type vio struct {
+	clause, site, disc, detail string
+	mod                        bool
+}
+
+// findViolations applies the two oracle clauses to the result of a cell.
+func findViolations(r result) []vio {
 	if !r.denied {
-		return false
+		return nil
 	}
-	w := witness{Cell: r.cell, Trace: r.trace}
+	var out []vio
+	rl, ri := r.cell.Local && !r.cell.isAPI(), r.cell.Internal && !r.cell.isAPI()
 	if len(r.leaks) > 0 {
 		o := r.leaks[0]
 		disc := map[string]string{"get": "record-returned", "query": "record-listed", "feed": "record-fed"}[pathFamily(o.Path)]
 		if disc == "" {
 			disc = "record-returned"
 		}
-		c.Violate("no-disclosure", o.Path, disc,
+		out = append(out, vio{"no-disclosure", o.Path, disc,
 			fmt.Sprintf("a reader with Local=%v Internal=%v received record %s (value %q) although it is marked %s; cell %s",
-				r.cell.Local && !r.cell.isAPI(), r.cell.Internal && !r.cell.isAPI(), o.Key, o.Value, r.cell.Flags, r.cell), w)
-		violated = true
+				rl, ri, o.Key, o.Value, r.cell.Flags, r.cell), false})
 	}
 	if r.checkMod && r.before != r.after {
 		site := r.modBy
-		if r.cell.warm() {
-			site = "warm-cache/" + pathFamily(r.modBy)
+		// the write paths that look the record up by its key consult the reader's cache first
+		if fam := pathFamily(r.modBy); r.cell.warm() && (fam == "update-by-key" || fam == "put") {
+			site = "warm-cache/" + fam
 		}
-		w.Before, w.After = r.before, r.after
-		c.Violate("no-modification", site, "storage-changed",
+		out = append(out, vio{"no-modification", site, "storage-changed",
 			fmt.Sprintf("a reader with Local=%v Internal=%v changed the stored record marked %s through %s; cell %s\nbefore: %s\nafter:  %s",
-				r.cell.Local && !r.cell.isAPI(), r.cell.Internal && !r.cell.isAPI(), r.cell.Flags, r.modBy, r.cell, r.before, r.after), w)
+				rl, ri, r.cell.Flags, r.modBy, r.cell, r.before, r.after), true})
+	}
+	return out
+}
+
+func judge(c *vlib.Ctx, r result) (violated bool) {
+	for _, v := range findViolations(r) {
+		w := witness{Cell: r.cell, Trace: r.trace}
+		if v.mod {
+			w.Before, w.After = r.before, r.after
+		}
+		c.Violate(v.clause, v.site, v.disc, v.detail, w)
 		violated = true
 	}
 	return violated
 }
 
-// violationSigs says which oracle clauses a result violates (judge reports them).
+// violationSigs returns the signatures of the clauses a result violates.
 func violationSigs(r result) []string {
-	if !r.denied {
-		return nil
-	}
 	var out []string
-	if len(r.leaks) > 0 {
-		out = append(out, "no-disclosure")
-	}
-	if r.checkMod && r.before != r.after {
-		out = append(out, "no-modification")
+	for _, v := range findViolations(r) {
+		out = append(out, v.clause+"|"+v.site+"|"+v.disc)
 	}
 	return out
 }
@@ -1123,6 +1146,12 @@ func violationSigs(r result) []string {
 func isSampleCell(c Cell) bool {
 	if c.Backend != "bbolt" || c.Shadow || c.Rec != "wrapper" || c.Depth != 1 || c.Cache != "none" {
 		return false
+	}
+	if c.ReaderOpts != "" {
+		return false
+	}
+	if c.Pre != "" {
+		return c.Pre == "Exists" && c.Path == "Put" && c.Flags == "both" && c.Marking == "always-opts" && !c.Local && !c.Internal
 	}
 	switch c.Path {
 	case "Get", "Query-prefix", "Subscribe-writes", "Delete", "Purge":
@@ -1216,9 +1245,11 @@ func main() {
 		caches := []string{"none", "cold", "warm-get", "warm-put"}
 		readerOpts := []string{""}
 		seqCaches := []string{"none", "warm-get"}
+		seqRecs, seqDepths := []string{"wrapper"}, []int{1}
 		if thorough {
 			readerOpts = []string{"", "always-secret", "always-crown", "always-expiry"}
 			seqCaches = caches
+			seqRecs, seqDepths = recs, depths
 		}
 		var groups []group
 		// (a) one access of the reader
@@ -1244,25 +1275,29 @@ func main() {
 		}
 		nSingle := len(groups)
 		// (b) two accesses of the same reader in a row: every non-feed access followed by every access
-		for _, pre := range ifacePaths {
-			if pathFamily(pre) == "feed" {
-				continue
-			}
-			for _, path := range ifacePaths {
-				for _, cache := range seqCaches {
-					for _, b := range bks {
-						groups = append(groups, group{backend: b, rec: "wrapper", depth: 1, cache: cache, pre: pre, path: path})
+		for _, rec := range seqRecs {
+			for _, depth := range seqDepths {
+				for _, pre := range ifacePaths {
+					if pathFamily(pre) == "feed" {
+						continue
+					}
+					for _, path := range ifacePaths {
+						for _, cache := range seqCaches {
+							for _, b := range bks {
+								groups = append(groups, group{backend: b, rec: rec, depth: depth, cache: cache, pre: pre, path: path})
+							}
+						}
 					}
 				}
-			}
-		}
-		for _, pre := range apiPaths {
-			if pathFamily(pre) == "feed" {
-				continue
-			}
-			for _, path := range apiPaths {
-				for _, b := range bks {
-					groups = append(groups, group{backend: b, rec: "wrapper", depth: 1, cache: "none", pre: pre, path: path})
+				for _, pre := range apiPaths {
+					if pathFamily(pre) == "feed" {
+						continue
+					}
+					for _, path := range apiPaths {
+						for _, b := range bks {
+							groups = append(groups, group{backend: b, rec: rec, depth: depth, cache: "none", pre: pre, path: path})
+						}
+					}
 				}
 			}
 		}
@@ -1283,6 +1318,33 @@ func main() {
 			samples    []result
 		}
 		reports := make([]groupReport, len(groups))
+		// watchdog: no group finished for a long time = something blocks for ever; that is
+		// an engine error with a goroutine dump, never a verdict
+		var progress atomic.Int64
+		stopWatch := make(chan struct{})
+		defer close(stopWatch)
+		go func() {
+			last, lastChange := int64(-1), time.Now()
+			t := time.NewTicker(5 * time.Second)
+			defer t.Stop()
+			for {
+				select {
+				case <-stopWatch:
+					return
+				case <-t.C:
+					if p := progress.Load(); p != last {
+						last, lastChange = p, time.Now()
+					} else if time.Since(lastChange) > 4*time.Minute {
+						fmt.Fprintf(os.Stderr, "ENGINE-ERROR: C03: no progress for %s after %d of %d groups; goroutines:\n", time.Since(lastChange).Round(time.Second), p, len(groups))
+						_ = pprof.Lookup("goroutine").WriteTo(os.Stderr, 1)
+						if tmpRoot != "" {
+							_ = os.RemoveAll(tmpRoot)
+						}
+						os.Exit(2)
+					}
+				}
+			}
+		}()
 		c.ParallelFor(len(groups), func(gi int) {
 			if c.Expired() {
 				return
@@ -1299,6 +1361,7 @@ func main() {
 				}
 			}
 			rep := groupReport{done: true, outcomes: map[string]int64{}}
+			seenClause := map[string]bool{}
 			for _, r := range results {
 				rep.cells++
 				rep.calls += r.calls
@@ -1333,12 +1396,26 @@ func main() {
 					rep.unsupp++
 				}
 				if sigs := violationSigs(r); len(sigs) > 0 {
+					// keep the full trace only for the first witness of a clause in this group
+					first := false
+					for _, sg := range sigs {
+						if !seenClause[sg] {
+							seenClause[sg], first = true, true
+						}
+					}
+					if !first {
+						r.trace = nil
+						if r.before != r.after {
+							r.before, r.after = "(see the first witness)", "(differs)"
+						}
+					}
 					rep.violating = append(rep.violating, r)
 				} else if isSampleCell(r.cell) {
 					rep.samples = append(rep.samples, r)
 				}
 			}
 			reports[gi] = rep
+			progress.Add(1)
 		})
 		var nGroupsOK int64
 		for gi := range reports {
@@ -1388,6 +1465,6 @@ func main() {
 		}())
 		c.Extra("bounds", map[string]any{"flags_x_marking": len(flagMarkings), "reader_privileges": 4, "cache_settings": 4,
 			"interface_paths": len(ifacePaths), "api_paths": len(apiPaths), "record_types": recs, "key_depths": depths,
-			"reader_option_variants": readerOpts, "groups_single_access": nSingle, "groups_two_accesses": len(groups) - nSingle, "caches_for_two_accesses": seqCaches, "history_depth": "<= 3 privileged writes, <= 1 reader pre-access, 1 access, <= 3 privileged writes while a feed is open"})
+			"reader_option_variants": readerOpts, "groups_single_access": nSingle, "groups_two_accesses": len(groups) - nSingle, "caches_for_two_accesses": seqCaches, "record_types_for_two_accesses": seqRecs, "key_depths_for_two_accesses": seqDepths, "history_depth": "<= 3 privileged writes, <= 1 reader pre-access, 1 access, <= 3 privileged writes while a feed is open"})
 	})
 }
